@@ -37,6 +37,7 @@ class Facts:
         self.canon = {}
         self.singletons, self.singleton_truthy, self.singleton_class, self.singleton_callable = [], {}, {}, {}
         self.extern_classes = {}
+        self.singleton_kind = {}
         for m in MODS:
             mod = self.mods[m]
             if mod is None:
@@ -61,10 +62,11 @@ class Facts:
             home = getattr(obj, '__module__', '')
             if home.startswith('glom.'):
                 hm = home.split('.', 1)[1]
-                qn = '%s.%s' % (hm, obj.__qualname__.split('.')[0] if '.' not in obj.__qualname__ else obj.__qualname__)
-                if '.' in obj.__qualname__:
-                    qn = '%s.%s' % (hm, obj.__qualname__.replace('.', '_'))
+                qn = '%s.%s' % (hm, obj.__qualname__)
                 self.classes.setdefault(qn, obj)
+                for nn, nobj in list(vars(obj).items()):
+                    if isinstance(nobj, type) and getattr(nobj, '__module__', '') == home and nobj.__qualname__.startswith(obj.__qualname__ + '.'):
+                        self.classes.setdefault('%s.%s' % (hm, nobj.__qualname__), nobj)
                 self.canon[key] = ('class', qn)
             elif obj.__name__ in self.classes and self.classes[obj.__name__] is obj:
                 self.canon[key] = ('class', obj.__name__)
@@ -117,6 +119,7 @@ class Facts:
             else:
                 cname = 'Sentinel'      # one artificial class for objects of foreign classes (boltons sentinels, dicts of module state)
         self.singleton_class[ident] = cname
+        self.singleton_kind[ident] = 'sentinel' if type(obj).__name__ == 'Sentinel' else 'object'
         self.singleton_callable[ident] = callable(obj)
 
     def issub(self, a, b):
